@@ -293,6 +293,66 @@ func (cn *canon) walk(n ast.Node) {
 			return false
 		case *ast.CommentGroup, *ast.Comment:
 			return false
+		case *ast.DeclStmt:
+			// local constant declarations are used by value
+			if gd, ok := x.Decl.(*ast.GenDecl); ok && gd.Tok == token.CONST {
+				return false
+			}
+		case *ast.SwitchStmt, *ast.TypeSwitchStmt:
+			// clauses with constant / type cases are mutually exclusive: their order is not structure
+			var body *ast.BlockStmt
+			cn.sb.WriteString(reflect.TypeOf(n).Elem().Name() + "( ")
+			switch sw := x.(type) {
+			case *ast.SwitchStmt:
+				if sw.Init != nil {
+					cn.walk(sw.Init)
+				}
+				if sw.Tag != nil {
+					cn.walk(sw.Tag)
+				}
+				body = sw.Body
+			case *ast.TypeSwitchStmt:
+				if sw.Init != nil {
+					cn.walk(sw.Init)
+				}
+				cn.walk(sw.Assign)
+				body = sw.Body
+			}
+			type keyed struct {
+				key string
+				cl  ast.Stmt
+			}
+			var cls []keyed
+			sortable := true
+			for _, st := range body.List {
+				cl := st.(*ast.CaseClause)
+				var parts []string
+				for _, e := range cl.List {
+					tv, ok := cn.info.Types[e]
+					switch {
+					case ok && tv.Value != nil:
+						parts = append(parts, "const:"+tv.Value.ExactString())
+					case ok && tv.IsType():
+						parts = append(parts, "type:"+types.TypeString(tv.Type, nil))
+					default:
+						sortable = false
+					}
+				}
+				sort.Strings(parts)
+				k := strings.Join(parts, ",")
+				if cl.List == nil {
+					k = "\xffdefault"
+				}
+				cls = append(cls, keyed{k, st})
+			}
+			if sortable {
+				sort.SliceStable(cls, func(i, j int) bool { return cls[i].key < cls[j].key })
+			}
+			for _, k := range cls {
+				cn.walk(k.cl)
+			}
+			cn.sb.WriteString(") ")
+			return false
 		case *ast.Ident:
 			cn.ident(x)
 			return false
@@ -662,16 +722,36 @@ func lanesShape(pkg *packages.Package, fd *ast.FuncDecl) (bool, string) {
 	ok := false
 	why := "no statement outs[i] = hashBlockGeneric(&msgs[i], prefix) inside a loop over the lanes"
 	ast.Inspect(fd.Body, func(n ast.Node) bool {
-		rs, isRange := n.(*ast.RangeStmt)
-		if !isRange {
+		var ko types.Object
+		var bodyList []ast.Stmt
+		switch loop := n.(type) {
+		case *ast.RangeStmt:
+			key, _ := loop.Key.(*ast.Ident)
+			if key == nil {
+				return true
+			}
+			ko = info.Defs[key]
+			bodyList = loop.Body.List
+		case *ast.ForStmt:
+			// for i := 0; i < len(msgs); i++
+			as, ok := loop.Init.(*ast.AssignStmt)
+			if !ok || len(as.Lhs) != 1 {
+				return true
+			}
+			id, _ := as.Lhs[0].(*ast.Ident)
+			inc, isInc := loop.Post.(*ast.IncDecStmt)
+			if id == nil || !isInc || inc.Tok != token.INC {
+				return true
+			}
+			ko = info.Defs[id]
+			bodyList = loop.Body.List
+		default:
 			return true
 		}
-		key, _ := rs.Key.(*ast.Ident)
-		if key == nil {
+		if ko == nil {
 			return true
 		}
-		ko := info.Defs[key]
-		for _, st := range rs.Body.List {
+		for _, st := range bodyList {
 			as, isAs := st.(*ast.AssignStmt)
 			if !isAs || len(as.Lhs) != 1 || len(as.Rhs) != 1 {
 				continue
